@@ -124,6 +124,8 @@ static void run_cside(long idx)
                 switch (need[q]) { case ZSTD_c_windowLog: vp_add(&P, need[q], wl); break; case ZSTD_c_hashLog: case ZSTD_c_chainLog: vp_add(&P, need[q], (int)vr_range(&r, 6, V_MIN(wl + 1, 24))); break; case ZSTD_c_searchLog: vp_add(&P, need[q], (int)vr_range(&r, 1, 6)); break;
                     case ZSTD_c_minMatch: vp_add(&P, need[q], (int)vr_range(&r, 3, 7)); break; case ZSTD_c_targetLength: vp_add(&P, need[q], (int)vr_u(&r, 500)); break; default: vp_add(&P, need[q], (int)vr_range(&r, 1, 9)); } }
             {   int o = 0; for (int i = 0; i < P.n && o < (int)sizeof(P.desc) - 16; i++) o += snprintf(P.desc + o, sizeof(P.desc) - (size_t)o, "%s%d=%d", i ? "," : "", (int)P.p[i], P.v[i]); } }
+        /* a source-size hint makes the estimate shrink to that size: the operation it covers is then a source no larger than the hint */
+        { for (int i = 0; i < P.n; i++) if (P.p[i] == ZSTD_c_srcSizeHint && P.v[i] > 0 && n > (size_t)P.v[i]) { n = (size_t)P.v[i]; v_stat("sources_capped_to_srcSizeHint", 1); } }
         ZSTD_CCtx_params* cp = ZSTD_createCCtxParams(); int const streaming = (int)vr_u(&r, 2);
         if (ZSTD_isError(vp_apply_params(cp, &P))) { ZSTD_freeCCtxParams(cp); v_stat("params_rejected", 1); break; }
         int const bufMode = streaming ? (int)vr_u(&r, 4) : (vr_chance(&r, 1, 3) ? 3 : 0);      /* bit 0: stable input, bit 1: stable output (each removes one internal buffer from the estimate) */
